@@ -190,6 +190,7 @@ def _streams(S: int, picks: list[int], b0: int, settings_at: int, settings_val: 
     run_callers(su, callers, devs, [("s0", cancel_at, False)] if cancel_at else [])
     if cancel_at:
         P.cover("cancelled-caller")
+    P.reached()
     if not P.check(bool(su.origins), "connected", f"{sig}:no-connection"):
         return
     srv = su.origins[0]
